@@ -169,6 +169,32 @@ pub fn search(tier: &str, seed: u64, s: &mut Search) {
         }
         compare(s, "generated", &svg, &svg, &iso, &o, &mut rng);
     }
+    // ---- strokes whose painted extent reaches far beyond the geometry: the layer box has to include it
+    let nsx = (if tier == "thorough" { 600 } else { 60 }) * mult;
+    for _ in 0..nsx {
+        let (w, h) = (rng.range(60, 120) as u32, rng.range(60, 120) as u32);
+        let mut body = String::new();
+        for _ in 0..1 + rng.below(3) {
+            let (x, y) = (rng.range(10, w as i64 - 20), rng.range(5, h as i64 / 2));
+            let (dx, dy) = (rng.range(2, 9), rng.range(15, 40));
+            let shape = format!(
+                r#"<path d="M {x} {y} l {dx} {dy} l {dx} -{dy}" fill="none" stroke="{}" stroke-width="{}" stroke-linejoin="{}" stroke-miterlimit="{}" stroke-linecap="{}"/>"#,
+                rng.pick(&["#00f", "#0a0", "#f00"]), rng.pick(&["4", "8", "12", "2.5"]), rng.pick(&["miter", "miter-clip", "miter-clip", "round", "bevel"]), rng.pick(&["4", "6", "10", "40"]), rng.pick(&["butt", "square", "round"])
+            );
+            let tf = match rng.below(3) {
+                0 => String::new(),
+                1 => format!(r#" transform="rotate({} {} {})""#, rng.range(-40, 40), x, y),
+                _ => format!(r#" transform="translate({} {}) scale({})""#, rng.range(-5, 5), rng.range(-5, 5), rng.pick(&["0.6", "1.3"])),
+            };
+            body += &format!("<g{tf}>{shape}</g>");
+        }
+        let svg = format!(r#"<svg xmlns="http://www.w3.org/2000/svg" width="{w}" height="{h}"><g>{body}</g></svg>"#);
+        let (iso, n) = inject_isolation(&svg, &mut rng, true);
+        if n == 0 {
+            continue;
+        }
+        compare(s, "stroke-extent", &svg, &svg, &iso, &o, &mut rng);
+    }
     // ---- corpus files in their Micro-SVG form
     let nc = if tier == "thorough" { 0 } else { 80 * mult.min(3) };
     for p in crate::corpus::sample(nc, seed) {
